@@ -1,6 +1,9 @@
 package schema
 
-import "regexp"
+import (
+	"fmt"
+	"regexp"
+)
 
 var unitsProperty = NewPropertySchema(
 	NewRefSchema("Units", nil),
@@ -1313,24 +1316,123 @@ func DescribeSchema() *ScopeSchema {
 }
 
 // UnserializeScope unserializes a scope definition from raw data.
+//
+// The returned scope is linked to itself and checked, so that it can be used right away: a
+// description that cannot be completed into a usable scope (missing or mismatched root object,
+// reference to an object that does not exist or that lives in another namespace, one-of member
+// contradicting the inlining flag, default value that is not valid JSON) results in an error.
+// To load a scope that references other namespaces, unserialize it with DescribeScope() and apply
+// the namespaces yourself.
 func UnserializeScope(data any) (*ScopeSchema, error) {
 	s, err := scopeScopeSchema.Unserialize(data)
 	if err != nil {
 		return nil, err
 	}
 	result := s.(*ScopeSchema)
-	// The references of a scope built from a description are not linked yet.
-	result.ApplySelf()
+	if err := linkUnserializedScope(result); err != nil {
+		return nil, err
+	}
 	return result, nil
 }
 
-// UnserializeSchema unserializes an entire schema definition from raw data.
+// UnserializeSchema unserializes an entire schema definition from raw data. Every scope in it
+// (step inputs, outputs, signal data) is linked and checked like UnserializeScope does.
 func UnserializeSchema(data any) (*SchemaSchema, error) {
 	s, err := schemaSchema.Unserialize(data)
 	if err != nil {
 		return nil, err
 	}
 	result := s.(*SchemaSchema)
-	result.applyNamespace()
+	for stepID, step := range result.StepsValue {
+		if err := linkUnserializedScope(step.InputValue); err != nil {
+			return nil, fmt.Errorf("invalid input schema of step %q (%w)", stepID, err)
+		}
+		for outputID, output := range step.OutputsValue {
+			if err := linkUnserializedScope(output.SchemaValue); err != nil {
+				return nil, fmt.Errorf("invalid schema of output %q of step %q (%w)", outputID, stepID, err)
+			}
+		}
+		for signalID, signal := range step.SignalHandlersValue {
+			if err := linkUnserializedScope(signal.DataSchemaValue); err != nil {
+				return nil, fmt.Errorf("invalid data schema of signal handler %q of step %q (%w)", signalID, stepID, err)
+			}
+		}
+		for signalID, signal := range step.SignalEmittersValue {
+			if err := linkUnserializedScope(signal.DataSchemaValue); err != nil {
+				return nil, fmt.Errorf("invalid data schema of signal emitter %q of step %q (%w)", signalID, stepID, err)
+			}
+		}
+	}
 	return result, nil
+}
+
+// linkUnserializedScope links a scope that was built from a received description to itself and
+// verifies what the constructors guarantee for scopes built in code. The linking functions panic
+// on a malformed schema because that is a programming error when the schema is written in Go; a
+// description received over the wire is data, so here the same conditions are returned as errors.
+func linkUnserializedScope(scope Scope) (err error) {
+	defer func() {
+		if r := recover(); r != nil {
+			if recoveredErr, ok := r.(error); ok {
+				err = recoveredErr
+			} else {
+				err = BadArgumentError{Message: fmt.Sprint(r)}
+			}
+		}
+	}()
+	if err := checkUnserializedType(scope); err != nil {
+		return err
+	}
+	scope.ApplySelf()
+	return scope.ValidateReferences()
+}
+
+// checkUnserializedType walks a type tree built from a description and checks every scope for
+// its root object and every object for the decodability of its default values (which also fills
+// the objects' default value caches instead of leaving that to the first use).
+func checkUnserializedType(t Type) error {
+	switch typed := t.(type) {
+	case *ScopeSchema:
+		rootObject, ok := typed.ObjectsValue[typed.RootValue]
+		if !ok || rootObject == nil {
+			return BadArgumentError{Message: fmt.Sprintf("root object with ID %q not found in scope", typed.RootValue)}
+		}
+		if rootObject.ID() != typed.RootValue {
+			return BadArgumentError{Message: fmt.Sprintf(
+				"root object's ID %q doesn't match its map key %q", rootObject.ID(), typed.RootValue,
+			)}
+		}
+		for _, object := range typed.ObjectsValue {
+			if err := checkUnserializedType(object); err != nil {
+				return err
+			}
+		}
+	case *ObjectSchema:
+		typed.GetDefaults() // panics with a BadArgumentError on an undecodable default value
+		for _, property := range typed.PropertiesValue {
+			if err := checkUnserializedType(property.TypeValue); err != nil {
+				return err
+			}
+		}
+	case *ListSchema:
+		return checkUnserializedType(typed.ItemsValue)
+	case *MapSchema[Type, Type]:
+		if err := checkUnserializedType(typed.KeysValue); err != nil {
+			return err
+		}
+		return checkUnserializedType(typed.ValuesValue)
+	case *OneOfSchema[string]:
+		for _, member := range typed.TypesValue {
+			if err := checkUnserializedType(member); err != nil {
+				return err
+			}
+		}
+	case *OneOfSchema[int64]:
+		for _, member := range typed.TypesValue {
+			if err := checkUnserializedType(member); err != nil {
+				return err
+			}
+		}
+	}
+	return nil
 }
